@@ -22,6 +22,8 @@ def _hex_piece(v, width, upper, zero):
     if width and zero and b.fits_unsigned(4 * width):
         nibbles = [Bits.source(list(b.b[4 * k: 4 * k + 4]), False) for k in range(width - 1, -1, -1)]
         return ("hex", nibbles, upper)
+    if not width and b.fits_unsigned(4):
+        return ("hex", [Bits.source(list(b.b[0:4]), False)], upper)
     return ("hexvar", width, upper, b)
 
 
